@@ -3,11 +3,11 @@
 import json, os
 ROOT = os.path.dirname(os.path.dirname(os.path.abspath(__file__)))
 TECH = 'bounded exhaustive enumeration (explicit-state exploration of the real implementation against a reference model)'
-NOTE_E1 = 'trusted: spec/layouts.json (hand transcription of the wire formats), the bit-addressed reference model/encoders in the checker, the compiler; inputs outside the stated lattices are not executed'
+NOTE_E1 = 'trusted: spec/layouts.json (hand transcription of the wire formats), the bit-addressed reference model/encoders in the checker; run in four worlds (gcc -O2, gcc -O0 = the default CMake build, gcc -O3 -DNDEBUG = CMake Release, clang -O2); inputs outside the stated lattices are not executed'
 CHECKS = {
  'C01': ('E1/E2 field explorer', 'every format x field x access path over the H1 buffer lattice and the FV value lattice, plus all 6240 generic descriptor shapes, each real call compared with a bit-addressed reference model', NOTE_E1, TECH),
  'C02': ('E1/E2 field explorer', 'every setter (both paths) over prior-buffer and value lattices (incl. values wider than the field) with whole-object diff against the reference model and read-back through both readers', NOTE_E1, TECH),
- 'C03': ('E1/E2 field explorer', 'every header-taking function on buffers of exactly the published header length between PROT_NONE pages (two placements) plus sizeof/offsetof/HEADER_LEN facts against the wire length', NOTE_E1, TECH),
+ 'C03': ('E1/E2 field explorer', 'every header-taking function on buffers of exactly the published header length between PROT_NONE pages (two placements); an instrumented pass (every load/store of the library hooked) checking each access against the header extent at all 8 address residues; sizeof/offsetof/HEADER_LEN facts against the wire length in C and C++', NOTE_E1, TECH),
  'C04': ('E1/E2 field explorer', 'every initialiser over the prior-content lattice (header + trailing bytes): canonical image, untouched surroundings, idempotence', NOTE_E1, TECH),
  'C05': ('E1/E2 field explorer', 'DFS over all operation histories up to depth D (per format, two initial states, all entry points) against a per-buffer model record; two-buffer products; talker traces; fresh-process replay separates hidden state', NOTE_E1, 'explicit-state DFS over operation histories on the real implementation with a reference model per buffer'),
  'C06': ('E1 serialiser explorer', 'both CAN builders (one-shot and separate steps) over lengths x identifiers x variants x payload patterns x prior headers x placements with whole-image diff against ref_can_build, exact-extent buffers between PROT_NONE pages', NOTE_E1, TECH),
@@ -22,7 +22,7 @@ CHECKS = {
  'C15': ('E5 configuration explorer', 'the case lattices of C01 C02 C04 C05 C06-C10 C12 C17 executed in all 64 configurations {gcc,clang} x -O0..-O3 x PDU offset 0..7 against the reference model, transcripts compared between worlds, plus a clang -fsanitize=alignment world where every misaligned-access report is a violation', 'trusted: the reference model; x86-64 host does not trap on misalignment, hence the sanitizer world; caller-owned arrays stay naturally aligned', 'exhaustive enumeration of build/placement configurations, each running the bounded case lattices on the real code'),
  'C16': ('E3 schedule explorer', 'every load/store of the library hooked by compiler instrumentation bound to our own runtime: (i) ownership classification of every access of every public function, (ii) all interleavings of 2-3 cooperative threads up to a preemption bound with scheduling points at every hooked non-stack access, per-thread results and buffers compared with the sequential reference; planted-bug self-test; free-running real-ThreadSanitizer complement', 'trusted: clang -fsanitize=thread instrumentation covering every memory access of the library (memcpy/memset renamed to hooked versions), sequential consistency of the explored interleavings; the -O0 build decides', 'stateless model checking of the implementation: preemption-bounded exhaustive schedule exploration (iterative context bounding) under a controlled cooperative scheduler'),
  'C17': ('E1/E2 field explorer', 'every pair of views sharing a field: reads and writes through either view over buffer/value lattices, images compared', NOTE_E1, TECH),
- 'C18': ('E4 environment explorer', 'every datagram within k deviations (quick 2, thorough 3) of each well-formed template, alone and followed by a well-formed datagram, delivered to the real main() of all six listeners in every mode through a scripted I/O seam, under ASan+UBSan with pattern-initialised locals, one forked child per sequence with a hang watchdog', 'trusted: the renamed-I/O seam, clang ASan/UBSan; explores a deviation ball around well-formed traffic, not all datagrams', 'exhaustive enumeration of environment answers (datagram sequences within a deviation bound) against the real programs under a fault-detecting build'),
+ 'C18': ('E4 environment explorer', 'every datagram within k deviations (quick 2, thorough 3) of each well-formed template, alone and followed by a well-formed datagram, delivered to the real main() of all six listeners in every mode through a scripted I/O seam, under ASan+UBSan, in builds with pattern-, zero- and un-initialised locals (outcomes must agree; stale receive-buffer contents must not matter), one forked child per sequence with a hang watchdog', 'trusted: the renamed-I/O seam, clang ASan/UBSan; explores a deviation ball around well-formed traffic, not all datagrams', 'exhaustive enumeration of environment answers (datagram sequences within a deviation bound) against the real programs under a fault-detecting build'),
  'C19': ('E4 environment explorer', 'the real talker main() and the real listener main() coupled through a scripted I/O seam: every frame of the alphabet, all ordered tuples of 2 and 3 frames per packet over a reduced alphabet, two packets in sequence, in all 8 modes; frames out compared with frames in, control header length checked', 'trusted: the renamed-I/O seam (recv/read/write/sendto/poll/socket... answered from a script), clang ASan+UBSan, struct can_frame/canfd_frame images as the kernel delivers them', 'exhaustive enumeration of input histories (frame tuples x modes) through the real example programs under a scripted environment'),
  'C20': ('E5 configuration explorer', 'every header alone, all ordered pairs, the full set in 28 orders (thorough: more rotations and triples) x {C99, C++}, each TU asserting every public integer name against its stand-alone value', 'trusted: gcc/g++ front ends, the header parser that collects names (a name it misses is not asserted)', 'exhaustive enumeration of build configurations (ordered header pairs/sets x language) with generated static assertions'),
 }
